@@ -498,15 +498,14 @@ Definition push_sub (i : N) : M unit := fun s => ROk tt (set_index (cs_fn s) (i 
 Definition pop_sub : M unit := fun s => ROk tt (set_index (cs_fn s) (tl (cs_idx s)) s).
 Definition with_sub (i : N) (m : M unit) : M unit := push_sub i ;; m ;; pop_sub.
 
-(* Handle::from_bytes with its debug_assert!(hash != 0) *)
+(* Handle::from_bytes (its debug_assert!(hash != 0) went with 3f22e7c: the hash is made non-zero) *)
 Definition handle_from_bytes_m (bs : list N) : M N :=
-  fun s => let h := handle_of_bytes bs in
-           if (h =? 0) && cs_debug s then RPanic else ROk h s.
+  fun s => ROk (handle_of_bytes bs) s.
 (* Compiler::card_handle = current_function_handle + current_index.sub_handle() *)
 Definition index_handle : M N :=
   do s <- get ;;
   do sub <- handle_from_bytes_m (flat_map (fun i => le_bytes 4 (i mod two32)) (rev (cs_idx s))) ;;
-  ret (N.lxor (cs_fh s) sub).
+  ret (handle_add (cs_fh s) sub).
 (* labels.0.insert(handle, Label::new(u32::try_from(bytecode.len()).expect(..))).unwrap():
    function and closure labels (overwrites; key 0 = Err(InvalidHandle) -> unwrap panics) *)
 Definition label_insert_here (h : N) : M unit :=
@@ -928,7 +927,7 @@ Fixpoint process_card (c : card) {struct c} : M unit :=
       push_instr (IGoto placeholder) ;;
       compile_begin ;;
       do h <- index_handle ;;
-      let fh := N.lxor h (handle_from_u64 closure_mask) in
+      let fh := handle_add h (handle_from_u64 closure_mask) in
       label_insert_here fh ;;
       scope_begin ;;
       add_locals (rev args) ;;
